@@ -30,6 +30,7 @@ func c09Gen(r *rand.Rand, tier string) []spec.Case {
 	for _, s := range sides {
 		add("mux", "accept-at-expiry:"+s)
 		add("mux", "staggered-dials-then-accept:"+s)
+		add("mux", "matched-then-dial-again:"+s)
 		add("grpc", "staggered-dials-then-accept:"+s)
 		add("grpc", "accept-twice:"+s)
 		add("grpcmux", "accept-twice:"+s)
@@ -43,7 +44,7 @@ func c09Gen(r *rand.Rand, tier string) []spec.Case {
 		k := pick(r, []string{"mux", "mux", "grpc", "grpcmux"})
 		pool := append([]string(nil), common...)
 		if k == "mux" {
-			pool = append(pool, "accept-at-expiry", "dial-timeout-then-accept", "staggered-dials-then-accept")
+			pool = append(pool, "accept-at-expiry", "dial-timeout-then-accept", "staggered-dials-then-accept", "matched-then-dial-again")
 		}
 		if k == "grpc" {
 			pool = append(pool, "dial-timeout-then-accept", "accept-twice")
@@ -119,6 +120,15 @@ func c09Judge(c spec.Case, evs []spec.Event, d *Death) CaseResult {
 			for _, e := range s.Errs {
 				if e == "" {
 					viol("unmatched-dial-succeeded", fmt.Sprintf("step %s: a dial with no accept succeeded", s.Step))
+				}
+			}
+		case "matched-then-dial-again":
+			for _, e := range s.Errs {
+				switch {
+				case (strings.HasPrefix(e, "accept: ") || strings.HasPrefix(e, "dial1: ")) && !strings.HasSuffix(e, ": "):
+					viol("matched-pair-failed", fmt.Sprintf("step %s: an accept that was waiting and its dial did not connect: %s", s.Step, e))
+				case e == "dial2: ":
+					viol("unmatched-dial-succeeded", fmt.Sprintf("step %s: a second dial to an id whose accept had already been served succeeded with no accept", s.Step))
 				}
 			}
 		case "dial-timeout-then-accept":
